@@ -8,6 +8,7 @@ import (
 	"flag"
 	"fmt"
 	"math/rand"
+	"os"
 	"runtime"
 	"sync"
 	"time"
@@ -28,7 +29,11 @@ type bufRW struct{ bytes.Buffer }
 
 type discardLog struct{}
 
-func (discardLog) Output(calldepth int, msgBytes []byte, loggerLevel erpc.LoggerLevel) {}
+func (discardLog) Output(calldepth int, msgBytes []byte, loggerLevel erpc.LoggerLevel) {
+	if loggerLevel == erpc.CRITICAL { // Fatalf / Panicf of the library: the process is about to exit
+		os.Stderr.Write(msgBytes)
+	}
+}
 func (discardLog) Flush() error                                                       { return nil }
 
 // ---- server side ----
@@ -62,6 +67,20 @@ func echo(ctx erpc.CallCtx, arg *[]byte) ([]byte, *erpc.Status) {
 	}
 	cnt.mu.Unlock()
 	return append([]byte("re:"), (*arg)...), nil
+}
+
+// a route whose argument is a struct: its body goes through the JSON codec, so a hostile body
+// makes UnmarshalBody fail AFTER the body codec is set (the loop then answers bad-message and goes on)
+type Sarg struct {
+	A int
+	B string
+}
+
+func structy(ctx erpc.CallCtx, arg *Sarg) (int, *erpc.Status) {
+	cnt.mu.Lock()
+	cnt.handled[ctx.Session().RemoteAddr().String()]++
+	cnt.mu.Unlock()
+	return arg.A + len(arg.B), nil
 }
 
 func note(ctx erpc.PushCtx, arg *[]byte) *erpc.Status {
@@ -113,6 +132,73 @@ func clientDecode(pf erpc.ProtoFunc, s []byte) (n int, unsupported bool) {
 	return
 }
 
+var structName string
+
+// classifyFrame runs the real decoder on ONE complete frame (size field included) in isolation,
+// with the body the server's binding would supply for it, and reports the class the read loop
+// acts on: ok / errcodec (error with a body codec set) / errnil / panic, and the message type.
+func classifyFrame(pf erpc.ProtoFunc, frame []byte, callName, pushName string) (class string, mt byte) {
+	m := socket.NewMessage(socket.WithNewBody(func(h socket.Header) interface{} {
+		switch {
+		case h.Mtype() == erpc.TypeCall && h.ServiceMethod() == callName:
+			return new([]byte)
+		case h.Mtype() == erpc.TypeCall && h.ServiceMethod() == structName:
+			return new(Sarg)
+		case h.Mtype() == erpc.TypePush && h.ServiceMethod() == pushName:
+			return new([]byte)
+		}
+		return nil
+	}))
+	defer func() {
+		if p := recover(); p != nil {
+			class, mt = "panic", 0
+		}
+	}()
+	rw := &bufRW{}
+	rw.Write(frame)
+	err := pf(rw).Unpack(m)
+	switch {
+	case err == nil:
+		return "ok", m.Mtype()
+	case m.BodyCodec() != 0:
+		return "errcodec", m.Mtype()
+	}
+	return "errnil", 0
+}
+
+// sizedTable walks the size-prefixed stream the way the harness understands it and classifies
+// every complete frame within the limit; the MODEL does its own framing and only looks frames up.
+func sizedTable(pf erpc.ProtoFunc, s []byte, lim uint32, callName, pushName string) (tab []string, classes []string, unsupported bool) {
+	seen := map[string]bool{}
+	for pos := 0; pos+4 <= len(s); {
+		size := uint32(s[pos])<<24 | uint32(s[pos+1])<<16 | uint32(s[pos+2])<<8 | uint32(s[pos+3])
+		if size > lim {
+			break
+		}
+		if size == 0 {
+			unsupported = true
+			break
+		}
+		if pos+4+int(size) > len(s) {
+			break
+		}
+		fr := s[pos : pos+4+int(size)]
+		class, mt := classifyFrame(pf, fr, callName, pushName)
+		if !seen[string(fr)] {
+			seen[string(fr)] = true
+			tab = append(tab, VL(VB(fr[4:]), VS(class), VN(int64(mt))))
+			classes = append(classes, class)
+		}
+		// no early exit on a frame that ends the loop: the model's coverage test is about framing
+		// alone (Model.SizedLoop.sized_frames), the decoder's answers do not steer this walk
+		if class != "errnil" && class != "panic" && mt != erpc.TypeCall && mt != erpc.TypePush && mt != erpc.TypeReply {
+			unsupported = true
+		}
+		pos += 4 + int(size)
+	}
+	return
+}
+
 func genStream(r *rand.Rand, pf erpc.ProtoFunc, callName, pushName string, lim uint32, st *Stats) (s []byte, class string) {
 	nf := 1 + r.Intn(4)
 	var frames [][]byte
@@ -128,6 +214,12 @@ func genStream(r *rand.Rand, pf erpc.ProtoFunc, callName, pushName string, lim u
 			name = "/no/such"
 		}
 		body := RandBytes(r, PickLen(r, []int{0, 1, 20, 200}))
+		if mt == erpc.TypeCall && name == callName && r.Intn(4) == 0 {
+			name = structName
+			if r.Intn(2) == 0 {
+				body = []byte(fmt.Sprintf(`{"A":%d,"B":"%x"}`, r.Intn(100), RandBytes(r, 3)))
+			}
+		}
 		var meta [][2]string
 		if r.Intn(2) == 0 {
 			meta = append(meta, [2]string{"k", string(RandBytes(r, 5))})
@@ -212,6 +304,7 @@ func main() {
 	srv := erpc.NewPeer(erpc.PeerConfig{PrintDetail: true, CountTime: true}, prePlugin{})
 	callName := srv.RouteCallFunc(echo)
 	pushName := srv.RoutePushFunc(note)
+	structName = srv.RouteCallFunc(structy)
 	ctl := erpc.NewPeer(erpc.PeerConfig{})
 	var pf erpc.ProtoFunc
 	switch *mode {
@@ -233,7 +326,8 @@ func main() {
 		}
 	})
 	var w *CaseWriter
-	if *mode == "raw" {
+	sized := *mode == "json" || *mode == "pb"
+	if *mode == "raw" || sized {
 		w = NewCaseWriter(cfg)
 	}
 	distinct := DistinctSet{}
@@ -249,6 +343,10 @@ func main() {
 		st.Count("class:" + class)
 		nfr, unsupported := clientDecode(pf, s)
 		erpc.SetReadLimit(lim)
+		var tab, classes []string
+		if sized {
+			tab, classes, unsupported = sizedTable(pf, s, lim, callName, pushName)
+		}
 		human := fmt.Sprintf("mode=%s lim=%d class=%s stream=%x", *mode, lim, class, s)
 		if len(s) > 0 {
 			distinct.Add(human)
@@ -321,10 +419,16 @@ func main() {
 				st.Fail(i, "other-session-broken", "the control session stopped working: "+stt.String(), human)
 			}
 		}
-		if w != nil && !unsupported {
+		if unsupported {
+			st.Count("unsupported-type-in-stream")
+		}
+		if sized {
+			w.Add(VL(VS("sized"), VN(int64(lim)), VB(s), VL(tab...)), VL(VN(int64(pre)), VBool(discBeforeEOF)))
+			for _, c := range classes {
+				st.Count("frame-class:" + c)
+			}
+		} else if w != nil {
 			w.Add(VL(VN(int64(lim)), VB(s)), VL(VN(int64(pre)), VBool(discBeforeEOF)))
-		} else if unsupported {
-			st.Count("skipped-model:unsupported-type")
 		}
 		_ = nfr
 		if len(st.Samples) < 6 && i%9 == 0 {
